@@ -103,7 +103,7 @@ def check(ctx):
             sites = []
             for t_fn in tgt:
                 for b, t in calls_to(prog, fn, target_fn=t_fn):
-                    o = origins(prog, fn, t["args"][0])
+                    o = origins(prog, fn, t["args"][0], at=b)
                     if o and all(x.kind == "param" and x.data == 1 and x.proj and x.proj[-1].endswith("." + fname) for x in o):
                         sites.append((b, t))
             # must: every successful path of the dirty arm passes one of the sites
@@ -196,7 +196,7 @@ def _db_level(ctx, prog):
     covered = {}
     for b, t in cb_sites:
         # the handle passed: tuple arg (&mut b,) ; b originates from getter(...).unwrap()
-        os_ = origins(prog, ap, t["args"][1])
+        os_ = origins(prog, ap, t["args"][1], at=b)
         flds = set()
         for o in os_:
             stack = [o]
@@ -212,7 +212,7 @@ def _db_level(ctx, prog):
                     if tg and tg[0].impl_self_adt == FILEDBINNER:
                         flds |= _fields_read(tg[0])
                     elif x.data.get("args"):
-                        stack.extend(origins(prog, ap, x.data["args"][0]))
+                        stack.extend(origins(prog, ap, x.data["args"][0], at=x.block))
         fate = result_fate(prog, ap, t["dest"]["l"]) if t["dest"]["l"] != 0 else {"returned"}
         for f in flds:
             covered.setdefault(f, []).append((b, fate))
